@@ -574,8 +574,9 @@ func (t *Throttle) Submit(f func() error) error {
 	pendingLimit := t.pendingLimit
 	pending := t.pending
 	tooMany := pendingLimit < pending
-	disabled := t.disabled
-	if !tooMany || disabled {
+	if !tooMany {
+		// Only a submission that goes on to the loop below will
+		// decrement t.pending again.
 		t.pending++
 	}
 	t.Unlock()
